@@ -172,3 +172,41 @@ func Solve(script string, timeout time.Duration) Result {
 	}
 	return last
 }
+
+// AnyUnsat runs every back end (z3-new with several seeds) on the script and
+// reports unsat if ANY of them proves it unsatisfiable. Used for the axiom
+// consistency canary, where a single lucky refutation is what matters.
+func AnyUnsat(script string, timeout time.Duration) Result {
+	ctx := context.Background()
+	type job struct {
+		s    solverSpec
+		pre  string
+		name string
+	}
+	var jobs []job
+	for _, s := range solvers {
+		jobs = append(jobs, job{s, "", s.name})
+	}
+	for _, seed := range []int{1, 2, 3, 4, 5} {
+		jobs = append(jobs, job{solvers[0], fmt.Sprintf("(set-option :smt.random_seed %d)\n(set-option :sat.random_seed %d)\n", seed, seed), fmt.Sprintf("z3-new/seed%d", seed)})
+	}
+	ch := make(chan Result, len(jobs))
+	for _, j := range jobs {
+		go func(j job) {
+			r := runOne(ctx, j.s, j.pre+script, false, timeout)
+			r.Solver = j.name
+			ch <- r
+		}(j)
+	}
+	out := Result{Status: "unknown"}
+	for range jobs {
+		r := <-ch
+		out.Tried = append(out.Tried, fmt.Sprintf("%s:%s:%.2fs", r.Solver, r.Status, r.Time))
+		if r.Status == "unsat" {
+			out.Status, out.Solver, out.Time, out.Output = "unsat", r.Solver, r.Time, r.Output
+		} else if out.Status != "unsat" && r.Status == "sat" {
+			out.Status, out.Solver, out.Time = "sat", r.Solver, r.Time
+		}
+	}
+	return out
+}
